@@ -7,6 +7,7 @@ import Mathlib.Algebra.Order.Field.Rat
 import Mathlib.Data.String.Basic
 import Mathlib.Data.List.Nodup
 import AtsimModel.Lemmas.KernelQ
+import AtsimModel.Lemmas.TokSem
 /-!
 # C05 — DL_POLY TABEAM: declared function count, block headers and values
 
@@ -266,4 +267,646 @@ theorem C05_kernel_counts (n : Nat) :
     kernel_unfold [k_tabeam_numpots_fs]
     push_cast
     kernel_close
+/-! ## The code itself: the TABEAM writer's pieces regenerated from the source
+
+`Atsim.Gen.Logic.tabeam_tabulate / tabeam_embedding / tabeam_density` are `_dlpoly_writeTABEAM._tabulateFunction / _writeEmbeddingFunction / _writeDensityFunction`
+as produced by `translator/py2lean_logic.py` on every run.  For every function, point count, step and prior stream content, and under every interpretation of the
+callables that maps function id 0 to zero (`Lemmas/TokSem.lean`), what the code writes means what the model's `tblock` says: the header line names the species and
+gives `n`, start `0.0` and end `(n-1)*step`, and is followed by exactly the `n` values `f(i*step)` in records of four (`"%f %f %f %f"`), a shorter last record
+holding the remainder. -/
+namespace TabeamWriter
+open Atsim.Gen.Logic Atsim.TokSem
+
+/-- one record of a TABEAM block: up to four `%f` fields -/
+def rowLine (I : String → Nat → Rat → Rat) (g : List Slot) : String × List (Option String × Rat) :=
+  (" ".intercalate (g.map fun _ => "%f") ++ "\n", g.map fun s => (none, slotVal I "value" s))
+
+/-- records of four over any element type (the shape of `rowsOf4`) -/
+def chunks4 {α : Type} : List α → List (List α)
+  | a :: b :: c :: d :: rest => [a, b, c, d] :: chunks4 rest
+  | [] => []
+  | l => [l]
+
+theorem rowsOf4_eq_chunks4 : ∀ l : List Slot, rowsOf4 l = chunks4 l
+  | a :: b :: c :: d :: rest => by simp [rowsOf4, chunks4, rowsOf4_eq_chunks4 rest]
+  | [] => rfl
+  | [_] => rfl
+  | [_, _] => rfl
+  | [_, _, _] => rfl
+
+theorem chunks4_map {α β : Type} (g : α → β) : ∀ l : List α, chunks4 (l.map g) = (chunks4 l).map (List.map g)
+  | a :: b :: c :: d :: rest => by simp [chunks4, chunks4_map g rest]
+  | [] => rfl
+  | [_] => rfl
+  | [_, _] => rfl
+  | [_, _, _] => rfl
+
+/-- the `%f` piece the loop appends to the current row -/
+def valTok (f : FnRec) (step : Rat) (i : Int) : Tok := Tok.mk "%f" [evalFnOV f ((i : Rat) * step)]
+
+/-- a finished row: `" ".join(row) + "\n"` -/
+def rowTok (row : List Tok) : Tok := tokSuffix (joinToks " " row) "\n"
+
+theorem intRange_zero (n : Nat) : intRange 0 (n : Int) = (List.range n).map fun (k : Nat) => (k : Int) := by
+  simp [intRange]
+
+theorem streamSem_append (I : String → Nat → Rat → Rat) (a b : List Tok) : streamSem I (a ++ b) = streamSem I a ++ streamSem I b := by
+  simp [streamSem]
+
+/-- the loop: with fewer than four pieces pending in `row`, the rest of the run emits the records of four of `row ++ remaining pieces` -/
+theorem tabulate_loop_eq (f : FnRec) (n : Int) (outfile : List Tok) (step : Rat) :
+    ∀ (xs : List Int) (ob row : List Tok), row.length < 4 →
+      tabeam_tabulate_loop1 f n ob outfile row step xs =
+        outfile ++ (ob ++ (chunks4 (row ++ xs.map (valTok f step))).map rowTok) := by
+  intro xs
+  induction xs with
+  | nil =>
+    intro ob row h
+    match row, h with
+    | [], _ => simp [tabeam_tabulate_loop1, chunks4]
+    | [_], _ => simp [tabeam_tabulate_loop1, chunks4, rowTok]
+    | [_, _], _ => simp [tabeam_tabulate_loop1, chunks4, rowTok]
+    | [_, _, _], _ => simp [tabeam_tabulate_loop1, chunks4, rowTok]
+    | _ :: _ :: _ :: _ :: _, h => simp at h; omega
+  | cons x xs ih =>
+    intro ob row h
+    match row, h with
+    | [], _ =>
+      have := ih ob [valTok f step x] (by simp)
+      simpa [tabeam_tabulate_loop1, valTok] using this
+    | [a], _ =>
+      have := ih ob [a, valTok f step x] (by simp)
+      simpa [tabeam_tabulate_loop1, valTok] using this
+    | [a, b], _ =>
+      have := ih ob [a, b, valTok f step x] (by simp)
+      simpa [tabeam_tabulate_loop1, valTok] using this
+    | [a, b, c], _ =>
+      have := ih (ob ++ [rowTok [a, b, c, valTok f step x]]) [] (by simp)
+      simpa [tabeam_tabulate_loop1, valTok, chunks4, rowTok] using this
+    | _ :: _ :: _ :: _ :: _, h => simp at h; omega
+
+/-- a written row means the model's record: as many `%f` fields as slots, each the function's value (function id 0 is the zero function) -/
+theorem tokSem_row (I : String → Nat → Rat → Rat) (hI : ZeroFn I) (f : Fid) (step : Rat) (g : List Nat) :
+    tokSem I (rowTok (g.map fun (k : Nat) => valTok ⟨f⟩ step (k : Int))) = rowLine I (g.map fun (k : Nat) => mkSlot f ((k : Rat) * step)) := by
+  have hv : ∀ x : Rat, slotVal I "value" (mkSlot f x) = I "value" f x := by
+    intro x
+    unfold mkSlot
+    split
+    · next h => subst h; simp [slotVal, hI "value" x]
+    · simp [slotVal]
+  unfold rowTok rowLine tokSuffix joinToks tokSem
+  refine Prod.ext ?_ ?_
+  · simp [List.map_map, Function.comp_def, valTok]
+  · induction g with
+    | nil => rfl
+    | cons k ks ih => simpa [valTok, evalFnOV, ovEval, hv] using ih
+
+end TabeamWriter
+
+open Atsim.Gen.Logic Atsim.TokSem in
+/-- **code tie**: `_tabulateFunction` appends exactly the model's records: `n` values `f(i*step)`, four per record, the remainder in a last shorter record -/
+theorem C05_code_tabulate (I : String → Nat → Rat → Rat) (hI : ZeroFn I) (f : Fid) (n : Nat) (step : Rat) (out : List Tok) :
+    streamSem I (tabeam_tabulate out ⟨f⟩ (n : Int) step) = streamSem I out ++ (rowsOf4 (sampled f n step)).map (TabeamWriter.rowLine I) := by
+  unfold tabeam_tabulate
+  rw [TabeamWriter.tabulate_loop_eq _ _ _ _ _ _ _ (by simp), TabeamWriter.streamSem_append, TabeamWriter.intRange_zero]
+  congr 1
+  simp only [List.nil_append, List.map_map, TabeamWriter.rowsOf4_eq_chunks4, sampled, TabeamWriter.chunks4_map, streamSem]
+  apply List.map_congr_left
+  intro g _
+  simp only [Function.comp]
+  exact TabeamWriter.tokSem_row I hI f step g
+
+open Atsim.Gen.Logic Atsim.TokSem in
+/-- **code tie**: the `embe` block: header `embe <species> <nrho> 0.0 <(nrho-1)*drho>` then the model's records of the element's own embedding function -/
+theorem C05_code_embedding (I : String → Nat → Rat → Rat) (hI : ZeroFn I) (e : El) (nrho : Nat) (drho : Rat) (out : List Tok) :
+    streamSem I (tabeam_embedding (toEam e) (nrho : Int) drho out) =
+      streamSem I out ++ [("embe %s %d 0.0 %f\n", [(some e.sp, 0), (none, (nrho : Rat)), (none, ((nrho : Rat) - 1) * drho)])] ++
+        (tblock "embe" [e.sp] e.embed nrho drho).rows.map (TabeamWriter.rowLine I) := by
+  unfold tabeam_embedding
+  rw [TabeamWriter.streamSem_append]
+  simp only [toEam, List.nil_append, C05_code_tabulate I hI, tblock, List.append_assoc]
+  simp [streamSem, tokSem, ovEval]
+
+open Atsim.Gen.Logic Atsim.TokSem in
+/-- **code tie**: a `dens` block for an ordered pair (EEAM): header `dens <A> <B> <nr> 0.0 <(nr-1)*dr>` then the model's records of the function it was handed -/
+theorem C05_code_density_pair (I : String → Nat → Rat → Rat) (hI : ZeroFn I) (a b : Sp) (ha : a ≠ "") (hb : b ≠ "") (f : Fid) (nr : Nat) (dr : Rat) (out : List Tok) :
+    streamSem I (tabeam_density a (some b) ⟨f⟩ (nr : Int) dr out) =
+      streamSem I out ++ [("dens %s %s %d 0.0 %f\n", [(some a, 0), (some b, 0), (none, (nr : Rat)), (none, ((nr : Rat) - 1) * dr)])] ++
+        (tblock "dens" [a, b] f nr dr).rows.map (TabeamWriter.rowLine I) := by
+  unfold tabeam_density
+  simp only [bne_iff_ne, ne_eq, ha, hb, not_false_eq_true, if_true, ite_true]
+  rw [TabeamWriter.streamSem_append]
+  simp only [List.nil_append, C05_code_tabulate I hI, tblock, List.append_assoc]
+  simp [streamSem, tokSem, ovEval]
+
+open Atsim.Gen.Logic Atsim.TokSem in
+/-- **code tie**: a `dens` block for one species (EAM): header `dens <A> <nr> 0.0 <(nr-1)*dr>` -/
+theorem C05_code_density_single (I : String → Nat → Rat → Rat) (hI : ZeroFn I) (a : Sp) (f : Fid) (nr : Nat) (dr : Rat) (out : List Tok) :
+    streamSem I (tabeam_density a none ⟨f⟩ (nr : Int) dr out) =
+      streamSem I out ++ [("dens %s %d 0.0 %f\n", [(some a, 0), (none, (nr : Rat)), (none, ((nr : Rat) - 1) * dr)])] ++
+        (tblock "dens" [a] f nr dr).rows.map (TabeamWriter.rowLine I) := by
+  unfold tabeam_density
+  simp only [ite_self]
+  rw [TabeamWriter.streamSem_append]
+  simp only [List.nil_append, C05_code_tabulate I hI, tblock, List.append_assoc]
+  simp [streamSem, tokSem, ovEval]
+
+
+/-! ## helper lemmas for the whole-file theorems: the insertion sort, the orders on labels and label pairs, the set of pairs, the pair blocks -/
+namespace TabeamWriter
+open Atsim.Gen.Logic Atsim.TokSem
+
+theorem rowLine_eq (I : String → Nat → Rat → Rat) : rowLine I = tabeamRow I "value" := rfl
+
+/-! ### insertion sort -/
+section sort
+variable {α : Type} (le : α → α → Bool)
+
+theorem insertBy_perm (x : α) : ∀ l : List α, (insertBy le x l).Perm (x :: l)
+  | [] => by simp [insertBy]
+  | y :: ys => by
+    simp only [insertBy]
+    split
+    · exact ((insertBy_perm x ys).cons y).trans (List.Perm.swap x y ys)
+    · exact List.Perm.refl _
+
+theorem foldl_insertBy_perm : ∀ (l acc : List α), (l.foldl (fun acc x => insertBy le x acc) acc).Perm (acc ++ l)
+  | [], acc => by simp
+  | x :: xs, acc => by
+    simp only [List.foldl_cons]
+    refine (foldl_insertBy_perm xs _).trans ?_
+    exact ((insertBy_perm le x acc).append_right xs).trans (by simpa using (List.perm_middle (a := x) (l₁ := acc) (l₂ := xs)).symm)
+
+theorem stableSortBy_perm (l : List α) : (stableSortBy le l).Perm l := by
+  simpa [stableSortBy] using foldl_insertBy_perm le l []
+
+variable (htot : ∀ a b, le a b = true ∨ le b a = true) (htr : ∀ a b c, le a b = true → le b c = true → le a c = true)
+include htot htr
+
+theorem insertBy_pairwise (x : α) : ∀ l : List α, l.Pairwise (fun a b => le a b = true) → (insertBy le x l).Pairwise (fun a b => le a b = true)
+  | [], _ => by simp [insertBy]
+  | y :: ys, h => by
+    simp only [insertBy]
+    have ⟨h1, h2⟩ := List.pairwise_cons.1 h
+    split
+    · next hyx =>
+      refine List.pairwise_cons.2 ⟨?_, insertBy_pairwise x ys h2⟩
+      intro z hz
+      rcases (List.mem_cons.1 ((insertBy_perm le x ys).mem_iff.1 hz)) with rfl | hz'
+      · exact hyx
+      · exact h1 z hz'
+    · next hyx =>
+      have hxy : le x y = true := (htot x y).resolve_right hyx
+      refine List.pairwise_cons.2 ⟨?_, h⟩
+      intro z hz
+      rcases List.mem_cons.1 hz with rfl | hz'
+      · exact hxy
+      · exact htr _ _ _ hxy (h1 z hz')
+
+theorem foldl_insertBy_pairwise : ∀ (l acc : List α), acc.Pairwise (fun a b => le a b = true) →
+    (l.foldl (fun acc x => insertBy le x acc) acc).Pairwise (fun a b => le a b = true)
+  | [], acc, h => by simpa using h
+  | x :: xs, acc, h => by
+    simp only [List.foldl_cons]
+    exact foldl_insertBy_pairwise xs _ (insertBy_pairwise le htot htr x acc h)
+
+/-- the sort yields THE sorted arrangement of its input -/
+theorem stableSortBy_eq (hanti : ∀ a b, le a b = true → le b a = true → a = b) (l t : List α) (hp : l.Perm t)
+    (hs : t.Pairwise (fun a b => le a b = true)) : stableSortBy le l = t :=
+  List.Perm.eq_of_pairwise (fun a b _ _ => hanti a b)
+    (by simpa [stableSortBy] using foldl_insertBy_pairwise le htot htr l [] List.Pairwise.nil) hs
+    ((stableSortBy_perm le l).trans hp)
+end sort
+
+/-! ### the orders the code sorts by -/
+section pairs
+attribute [-instance] List.LE'
+
+/-- the code's comparison of label lists (`sorted(pairs)`) -/
+abbrev leL : List String → List String → Bool := fun a b => decide (a ≤ b)
+/-- the code's comparison of labels (`sorted([a, b])`) -/
+abbrev leS : String → String → Bool := fun a b => decide (a ≤ b)
+
+def toL (k : Sp × Sp) : List String := [k.1, k.2]
+
+theorem toL_injective : Function.Injective toL := by
+  rintro ⟨a, b⟩ ⟨c, d⟩ h
+  simp [toL] at h
+  simp [h]
+
+theorem leL_total (a b : List String) : leL a b = true ∨ leL b a = true := by
+  simpa [leL] using List.le_total a b
+
+theorem leL_trans (a b c : List String) : leL a b = true → leL b c = true → leL a c = true := by
+  simp only [leL, decide_eq_true_eq]
+  exact List.le_trans
+
+theorem leL_antisymm (a b : List String) : leL a b = true → leL b a = true → a = b := by
+  simp only [leL, decide_eq_true_eq]
+  exact List.le_antisymm
+
+theorem sort2_eq (a b : String) : stableSortBy leS [a, b] = toL (pairKey a b) := by
+  simp only [stableSortBy, List.foldl_cons, List.foldl_nil, insertBy, leS, decide_eq_true_eq, pairKey, toL]
+  split <;> rfl
+
+theorem str_lt_of_le_of_ne {b d : String} (h : b ≤ d) (hne : b ≠ d) : b < d := by
+  apply Classical.byContradiction
+  intro hn
+  exact hne (String.le_antisymm h (String.not_lt.1 hn))
+
+theorem toL_le_of_lt (a b c d : String) (h : a < c) : leL (toL (a, b)) (toL (c, d)) = true :=
+  decide_eq_true (List.cons_le_cons_iff.2 (Or.inl h))
+
+theorem toL_le_of_le (a b d : String) (h : b ≤ d) : leL (toL (a, b)) (toL (a, d)) = true := by
+  refine decide_eq_true (List.cons_le_cons_iff.2 (Or.inr ⟨rfl, List.cons_le_cons_iff.2 ?_⟩))
+  by_cases hbd : b = d
+  · exact Or.inr ⟨hbd, List.le_refl _⟩
+  · exact Or.inl (str_lt_of_le_of_ne h hbd)
+/-! ### the model's enumeration is sorted -/
+
+theorem str_le_of_lt {a b : String} (h : a < b) : a ≤ b := le_of_lt h
+
+theorem insertSp_perm (x : Sp) : ∀ l : List Sp, (insertSp x l).Perm (x :: l)
+  | [] => by simp [insertSp]
+  | y :: ys => by
+    simp only [insertSp]
+    split
+    · exact List.Perm.refl _
+    · exact ((insertSp_perm x ys).cons y).trans (List.Perm.swap x y ys)
+
+theorem sortSp_cons (a : Sp) (l : List Sp) : sortSp (a :: l) = insertSp a (sortSp l) := rfl
+
+theorem sortSp_perm : ∀ l : List Sp, (sortSp l).Perm l
+  | [] => by simp [sortSp]
+  | a :: rest => by
+    rw [sortSp_cons]
+    exact (insertSp_perm a _).trans ((sortSp_perm rest).cons a)
+
+theorem insertSp_sorted (x : Sp) : ∀ l : List Sp, l.Pairwise (· ≤ ·) → (insertSp x l).Pairwise (· ≤ ·)
+  | [], _ => by simp [insertSp]
+  | y :: ys, h => by
+    simp only [insertSp]
+    have ⟨h1, h2⟩ := List.pairwise_cons.1 h
+    split
+    · next hxy =>
+      refine List.pairwise_cons.2 ⟨?_, h⟩
+      intro z hz
+      rcases List.mem_cons.1 hz with rfl | hz'
+      · exact hxy
+      · exact String.le_trans hxy (h1 z hz')
+    · next hxy =>
+      have hyx : y ≤ x := (String.le_total y x).resolve_right hxy
+      refine List.pairwise_cons.2 ⟨?_, insertSp_sorted x ys h2⟩
+      intro z hz
+      rcases (List.mem_cons.1 ((insertSp_perm x ys).mem_iff.1 hz)) with rfl | hz'
+      · exact hyx
+      · exact h1 z hz'
+
+theorem sortSp_sorted : ∀ l : List Sp, (sortSp l).Pairwise (· ≤ ·)
+  | [] => by simp [sortSp]
+  | a :: rest => by
+    rw [sortSp_cons]
+    exact insertSp_sorted a _ (sortSp_sorted rest)
+
+theorem sortSp_strict (l : List Sp) (h : l.Nodup) : (sortSp l).Pairwise (· < ·) := by
+  have hn : (sortSp l).Nodup := (sortSp_perm l).nodup_iff.2 h
+  exact ((sortSp_sorted l).and hn).imp (fun ⟨h1, h2⟩ => str_lt_of_le_of_ne h1 h2)
+
+/-- in a strictly sorted list the enumeration lists exactly the ordered pairs of members -/
+theorem mem_tri_sorted (l : List Sp) (h : l.Pairwise (· < ·)) (a b : Sp) : (a, b) ∈ tri l ↔ a ∈ l ∧ b ∈ l ∧ a ≤ b := by
+  have hle : ∀ a b, (a, b) ∈ tri l → a ≤ b := by
+    induction l with
+    | nil => simp [tri]
+    | cons x rest ih =>
+      have ⟨h1, h2⟩ := List.pairwise_cons.1 h
+      intro a b
+      simp only [tri, List.mem_append, List.mem_map, Prod.mk.injEq]
+      rintro (⟨c, hc, rfl, rfl⟩ | hab)
+      · rcases List.mem_cons.1 hc with rfl | hc'
+        · exact String.le_refl _
+        · exact str_le_of_lt (h1 _ hc')
+      · exact ih h2 a b hab
+  constructor
+  · intro hab
+    exact ⟨(mem_tri l a b hab).1, (mem_tri l a b hab).2, hle a b hab⟩
+  · rintro ⟨ha, hb, hab⟩
+    rcases tri_complete l a b ha hb with h' | h'
+    · exact h'
+    · have : a = b := String.le_antisymm hab (hle b a h')
+      subst this; exact h'
+
+theorem tri_map_sorted (l : List Sp) (h : l.Pairwise (· < ·)) : ((tri l).map toL).Pairwise (fun a b => leL a b = true) := by
+  induction l with
+  | nil => simp [tri]
+  | cons x rest ih =>
+    have ⟨h1, h2⟩ := List.pairwise_cons.1 h
+    simp only [tri, List.map_append, List.map_map]
+    rw [List.pairwise_append]
+    refine ⟨?_, ih h2, ?_⟩
+    · rw [List.pairwise_map]
+      have hle : (x :: rest).Pairwise (· ≤ ·) := h.imp str_le_of_lt
+      exact hle.imp (fun hbc => toL_le_of_le x _ _ hbc)
+    · intro p hp q hq
+      obtain ⟨b, _, rfl⟩ := List.mem_map.1 hp
+      obtain ⟨⟨c, d⟩, hcd, rfl⟩ := List.mem_map.1 hq
+      exact toL_le_of_lt x b c d (h1 c (mem_tri rest c d hcd).1)
+/-! ### the set of sorted label pairs the code collects -/
+
+theorem mem_setAdd {α : Type} [BEq α] [LawfulBEq α] (s : List α) (x y : α) : y ∈ setAdd s x ↔ y ∈ s ∨ y = x := by
+  unfold setAdd
+  split
+  · next h =>
+    have hx : x ∈ s := by simpa using h
+    constructor
+    · exact Or.inl
+    · rintro (h' | rfl)
+      · exact h'
+      · exact hx
+  · simp
+
+theorem nodup_setAdd {α : Type} [BEq α] [LawfulBEq α] (s : List α) (x : α) (h : s.Nodup) : (setAdd s x).Nodup := by
+  unfold setAdd
+  split
+  · exact h
+  · next hx =>
+    have hx' : x ∉ s := by simpa using hx
+    rw [List.nodup_append]
+    refine ⟨h, by simp, ?_⟩
+    intro a ha b hb hab
+    simp only [List.mem_singleton] at hb
+    subst hb; subst hab
+    exact hx' ha
+
+theorem pairs_loop2_spec (dr : Rat) (E : List EamRec) (i : EamRec) (nr : Int) (out : List Tok) (PP : List PotRec) :
+    ∀ (js : List EamRec) (acc : List (List String)), acc.Nodup →
+      (tabeam_pair_potentials_loop2 dr E i nr out PP acc js).Nodup ∧
+      ∀ x, x ∈ tabeam_pair_potentials_loop2 dr E i nr out PP acc js ↔
+        x ∈ acc ∨ ∃ j ∈ js, x = toL (pairKey i.species j.species)
+  | [], acc, h => by simp [tabeam_pair_potentials_loop2, h]
+  | j :: js, acc, h => by
+    simp only [tabeam_pair_potentials_loop2]
+    have := pairs_loop2_spec dr E i nr out PP js _ (nodup_setAdd acc (stableSortBy leS [i.species, j.species]) h)
+    refine ⟨this.1, ?_⟩
+    intro x
+    rw [this.2 x, mem_setAdd, sort2_eq]
+    simp only [List.mem_cons, exists_eq_or_imp]
+    tauto
+
+theorem pairs_loop1_spec (dr : Rat) (E : List EamRec) (nr : Int) (out : List Tok) (PP : List PotRec) :
+    ∀ (is : List EamRec) (acc : List (List String)), acc.Nodup →
+      (tabeam_pair_potentials_loop1 dr E nr out PP acc is).Nodup ∧
+      ∀ x, x ∈ tabeam_pair_potentials_loop1 dr E nr out PP acc is ↔
+        x ∈ acc ∨ ∃ i ∈ is, ∃ j ∈ E, x = toL (pairKey i.species j.species)
+  | [], acc, h => by simp [tabeam_pair_potentials_loop1, h]
+  | i :: is, acc, h => by
+    simp only [tabeam_pair_potentials_loop1]
+    have h2 := pairs_loop2_spec dr E i nr out PP E acc h
+    have := pairs_loop1_spec dr E nr out PP is _ h2.1
+    refine ⟨this.1, ?_⟩
+    intro x
+    rw [this.2 x, h2.2 x]
+    simp only [List.mem_cons, exists_eq_or_imp]
+    exact or_assoc
+/-- `sorted(pairs)` is the model's enumeration -/
+theorem sorted_pairs_eq (els : List El) (hnd : (els.map (·.sp)).Nodup) (dr : Rat) (nr : Int) (out : List Tok) (PP : List PotRec) :
+    stableSortBy leL (tabeam_pair_potentials_loop1 dr (els.map toEam) nr out PP [] (els.map toEam)) =
+      (tri (sortSp (els.map (·.sp)))).map toL := by
+  have hS : (sortSp (els.map (·.sp))).Pairwise (· < ·) := sortSp_strict _ hnd
+  have hSn : (sortSp (els.map (·.sp))).Nodup := (sortSp_perm _).nodup_iff.2 hnd
+  have hmemS : ∀ a, a ∈ sortSp (els.map (·.sp)) ↔ ∃ e ∈ els, e.sp = a := by
+    intro a
+    rw [(sortSp_perm _).mem_iff, List.mem_map]
+  have hspec := pairs_loop1_spec dr (els.map toEam) nr out PP (els.map toEam) [] List.nodup_nil
+  apply stableSortBy_eq leL leL_total leL_trans leL_antisymm _ _ _ (tri_map_sorted _ hS)
+  rw [List.perm_ext_iff_of_nodup hspec.1 ((tri_nodup _ hSn).map toL_injective)]
+  intro x
+  rw [hspec.2 x]
+  simp only [List.not_mem_nil, false_or, List.mem_map]
+  constructor
+  · rintro ⟨i, ⟨ei, hei, rfl⟩, j, ⟨ej, hej, rfl⟩, rfl⟩
+    refine ⟨pairKey ei.sp ej.sp, ?_, rfl⟩
+    have hi : ei.sp ∈ sortSp (els.map (·.sp)) := (hmemS _).2 ⟨ei, hei, rfl⟩
+    have hj : ej.sp ∈ sortSp (els.map (·.sp)) := (hmemS _).2 ⟨ej, hej, rfl⟩
+    unfold pairKey
+    split
+    · next h => exact (mem_tri_sorted _ hS _ _).2 ⟨hi, hj, h⟩
+    · next h => exact (mem_tri_sorted _ hS _ _).2 ⟨hj, hi, (String.le_total _ _).resolve_left h⟩
+  · rintro ⟨⟨a, b⟩, hab, rfl⟩
+    obtain ⟨ha, hb, hle⟩ := (mem_tri_sorted _ hS a b).1 hab
+    obtain ⟨ei, hei, rfl⟩ := (hmemS a).1 ha
+    obtain ⟨ej, hej, rfl⟩ := (hmemS b).1 hb
+    refine ⟨toEam ei, ⟨ei, hei, rfl⟩, toEam ej, ⟨ej, hej, rfl⟩, ?_⟩
+    simp [pairKey, toEam, hle]
+end pairs
+
+/-! ### `_tabulateFunction` on a pair potential, `_writePairPotential` -/
+
+/-- the `%f` piece the loop appends to the current row of a pair block -/
+def valTokE (p : PotRec) (step : Rat) (i : Int) : Tok := Tok.mk "%f" [energyOf p ((i : Rat) * step)]
+
+theorem tabulate_pot_loop_eq (f : PotRec) (n : Int) (outfile : List Tok) (step : Rat) :
+    ∀ (xs : List Int) (ob row : List Tok), row.length < 4 →
+      tabeam_tabulate_pot_loop1 f n ob outfile row step xs =
+        outfile ++ (ob ++ (chunks4 (row ++ xs.map (valTokE f step))).map rowTok) := by
+  intro xs
+  induction xs with
+  | nil =>
+    intro ob row h
+    match row, h with
+    | [], _ => simp [tabeam_tabulate_pot_loop1, chunks4]
+    | [_], _ => simp [tabeam_tabulate_pot_loop1, chunks4, rowTok]
+    | [_, _], _ => simp [tabeam_tabulate_pot_loop1, chunks4, rowTok]
+    | [_, _, _], _ => simp [tabeam_tabulate_pot_loop1, chunks4, rowTok]
+    | _ :: _ :: _ :: _ :: _, h => simp at h; omega
+  | cons x xs ih =>
+    intro ob row h
+    match row, h with
+    | [], _ =>
+      have := ih ob [valTokE f step x] (by simp)
+      simpa [tabeam_tabulate_pot_loop1, valTokE] using this
+    | [a], _ =>
+      have := ih ob [a, valTokE f step x] (by simp)
+      simpa [tabeam_tabulate_pot_loop1, valTokE] using this
+    | [a, b], _ =>
+      have := ih ob [a, b, valTokE f step x] (by simp)
+      simpa [tabeam_tabulate_pot_loop1, valTokE] using this
+    | [a, b, c], _ =>
+      have := ih (ob ++ [rowTok [a, b, c, valTokE f step x]]) [] (by simp)
+      simpa [tabeam_tabulate_pot_loop1, valTokE, chunks4, rowTok] using this
+    | _ :: _ :: _ :: _ :: _, h => simp at h; omega
+
+theorem tokSem_rowE (I : String → Nat → Rat → Rat) (hI : ZeroFn I) (p : PotRec) (step : Rat) (g : List Nat) :
+    tokSem I (rowTok (g.map fun (k : Nat) => valTokE p step (k : Int))) =
+      tabeamRow I "energy" (g.map fun (k : Nat) => mkSlot p.fid ((k : Rat) * step)) := by
+  have hv : ∀ x : Rat, slotVal I "energy" (mkSlot p.fid x) = I "energy" p.fid x := by
+    intro x
+    unfold mkSlot
+    split
+    · next h => rw [h]; simp [slotVal, hI "energy" x]
+    · simp [slotVal]
+  unfold rowTok tabeamRow tokSuffix joinToks tokSem
+  refine Prod.ext ?_ ?_
+  · simp [List.map_map, Function.comp_def, valTokE]
+  · induction g with
+    | nil => rfl
+    | cons k ks ih => simpa [valTokE, energyOf, ovEval, hv] using ih
+
+theorem code_tabulate_pot (I : String → Nat → Rat → Rat) (hI : ZeroFn I) (p : PotRec) (n : Nat) (step : Rat) (out : List Tok) :
+    streamSem I (tabeam_tabulate_pot out p (n : Int) step) =
+      streamSem I out ++ (rowsOf4 (sampled p.fid n step)).map (tabeamRow I "energy") := by
+  unfold tabeam_tabulate_pot
+  rw [tabulate_pot_loop_eq _ _ _ _ _ _ _ (by simp), streamSem_append, intRange_zero]
+  congr 1
+  simp only [List.nil_append, List.map_map, rowsOf4_eq_chunks4, sampled, chunks4_map, streamSem]
+  apply List.map_congr_left
+  intro g _
+  simp only [Function.comp]
+  exact tokSem_rowE I hI p step g
+
+/-- `_writePairPotential`: the header `pair <A> <B> <nr> 0.0 <(nr-1)*dr>` then the records of the potential's energy -/
+theorem code_pair_potential (I : String → Nat → Rat → Rat) (hI : ZeroFn I) (p : PotRec) (nr : Nat) (dr : Rat) (out : List Tok) :
+    streamSem I (tabeam_pair_potential p (nr : Int) dr out) =
+      streamSem I out ++ tblockSem I (tblock "pair" [p.a, p.b] p.fid nr dr) := by
+  unfold tabeam_pair_potential
+  rw [streamSem_append]
+  simp only [List.nil_append, code_tabulate_pot I hI, tblock, tblockSem]
+  simp [streamSem, tokSem, ovEval]
+
+/-! ### the dictionary of declared potentials and the loop over the sorted pairs -/
+
+/-- `pairPotDict` after the loop over the declared potentials -/
+def potDict (pairs : List PairDecl) : List (List String × PotRec) := pairs.map fun p => (toL (pairKey p.a p.b), toPot p)
+
+theorem toL_beq (k k' : Sp × Sp) : (toL k == toL k') = (k == k') := by
+  obtain ⟨a, b⟩ := k
+  obtain ⟨c, d⟩ := k'
+  by_cases h : (a, b) = (c, d)
+  · rw [h]; simp
+  · have h' : toL (a, b) ≠ toL (c, d) := fun e => h (toL_injective e)
+    simp [h, h']
+
+theorem lookupLast_potDict (pairs : List PairDecl) (k : Sp × Sp) :
+    lookupLast (potDict pairs) (toL k) = (pairs.reverse.find? (fun p => pairKey p.a p.b == k)).map toPot := by
+  unfold lookupLast potDict
+  rw [← List.map_reverse, List.find?_map, Option.map_map]
+  simp only [Function.comp_def, toL_beq]
+
+theorem pairs_loop3_eq (dr : Rat) (E : List EamRec) (nr : Int) (out : List Tok) (PP : List PotRec) (P : List (List String)) :
+    ∀ (ps : List PairDecl) (dict : List (List String × PotRec)),
+      tabeam_pair_potentials_loop3 dr E nr out dict PP P (ps.map toPot) =
+        tabeam_pair_potentials_loop4 dr E nr 0 out (dict ++ potDict ps) PP P (stableSortBy leL P)
+  | [], dict => by simp [tabeam_pair_potentials_loop3, potDict]
+  | p :: ps, dict => by
+    simp only [List.map_cons, tabeam_pair_potentials_loop3]
+    rw [pairs_loop3_eq dr E nr out PP P ps]
+    simp [potDict, sort2_eq, toPot]
+
+theorem pairs_loop4_sem (I : String → Nat → Rat → Rat) (hI : ZeroFn I) (dr : Rat) (E : List EamRec) (nr : Nat) (PP : List PotRec)
+    (P : List (List String)) (pairs : List PairDecl) :
+    ∀ (ks : List (Sp × Sp)) (out : List Tok),
+      streamSem I (tabeam_pair_potentials_loop4 dr E (nr : Int) 0 out (potDict pairs) PP P (ks.map toL)) =
+        streamSem I out ++ (ks.map fun k =>
+          match pairs.reverse.find? (fun p => pairKey p.a p.b == k) with
+          | some p => tblock "pair" [p.a, p.b] p.fid nr dr
+          | none => tblock "pair" [k.1, k.2] 0 nr dr).flatMap (tblockSem I)
+  | [], out => by simp [tabeam_pair_potentials_loop4]
+  | k :: ks, out => by
+    simp only [List.map_cons, tabeam_pair_potentials_loop4, lookupLast_potDict, List.flatMap_cons]
+    cases hf : pairs.reverse.find? (fun p => pairKey p.a p.b == k) with
+    | some p =>
+      simp only [Option.map_some]
+      rw [pairs_loop4_sem I hI dr E nr PP P pairs ks, code_pair_potential I hI]
+      simp [toPot, List.append_assoc]
+    | none =>
+      simp only [Option.map_none]
+      rw [pairs_loop4_sem I hI dr E nr PP P pairs ks, code_pair_potential I hI]
+      simp [toL, listGet, List.append_assoc]
+
+theorem titlePad_eq : "                                                                                                    " = titlePad := by
+  decide
+
+theorem except_density_loop_sem (I : String → Nat → Rat → Rat) (hI : ZeroFn I) (dr drho : Rat) (E : List EamRec) (nr : Int) (nrho : Nat)
+    (numpots : Rat) (PP : List PotRec) (title : String) :
+    ∀ (els : List El) (out : List Tok),
+      streamSem I (tabeam_except_density_loop1 dr drho E nr (nrho : Int) numpots out PP title (els.map toEam)) =
+        streamSem I out ++ (els.map fun e => tblock "embe" [e.sp] e.embed nrho drho).flatMap (tblockSem I)
+  | [], out => by simp [tabeam_except_density_loop1]
+  | e :: els, out => by
+    simp only [List.map_cons, tabeam_except_density_loop1, List.flatMap_cons]
+    rw [except_density_loop_sem I hI dr drho E nr nrho numpots PP title els, C05_code_embedding I hI, rowLine_eq]
+    simp [tblockSem, tblock, List.append_assoc]
+
+theorem write_loop_sem (I : String → Nat → Rat → Rat) (hI : ZeroFn I) (dr drho : Rat) (E : List EamRec) (nr : Nat) (nrho : Int)
+    (numpots : Rat) (PP : List PotRec) (title : String) (out0 : List Tok) :
+    ∀ (els : List El) (out : List Tok),
+      streamSem I (tabeam_write_loop1 dr drho E (nr : Int) nrho numpots out0 out PP title (els.map toEam)) =
+        streamSem I out0 ++ (streamSem I out ++ (els.map fun e => tblock "dens" [e.sp] e.dens nr dr).flatMap (tblockSem I))
+  | [], out => by simp [tabeam_write_loop1, streamSem_append]
+  | e :: els, out => by
+    simp only [List.map_cons, tabeam_write_loop1, List.flatMap_cons]
+    rw [write_loop_sem I hI dr drho E nr nrho numpots PP title out0 els]
+    have := C05_code_density_single I hI e.sp e.dens nr dr out
+    simp only [toEam]
+    rw [this, rowLine_eq]
+    simp [tblockSem, tblock, List.append_assoc]
+
+end TabeamWriter
+
+/-! ## The code itself: the whole TABEAM file
+
+`Atsim.Gen.Logic.tabeam_pair_potentials / tabeam_except_density / tabeam_write` are `_writePairPotentials`, `_writeTABEAM_exceptDensity` and `writeTABEAM` as regenerated on
+every run - the `pairs` set of sorted label pairs, the `pairPotDict` dictionary (a later potential for the same unordered pair replaces an earlier one), the `nullfunc`
+potential for pairs nobody declared, `numpots = n(n+5)/2`, the title padded with a hundred blanks.  For all element lists with distinct species labels, all declared pair
+potentials, grids, titles and prior stream contents, under every interpretation with function 0 the zero function, what the code writes is the model's `tabeam false …`:
+title, declared count, the `pair` blocks in sorted order of the unordered label pairs, the `embe` blocks and then the `dens` blocks in element order. -/
+
+open Atsim.Gen.Logic Atsim.TokSem in
+/-- **code tie**: the `pair` blocks: one per unordered pair of the elements' labels, in sorted order; a declared potential is written under its own label order, an
+    undeclared pair as the zero function under the sorted labels -/
+theorem C05_code_pair_potentials (I : String → Nat → Rat → Rat) (hI : ZeroFn I) (els : List El) (pairs : List PairDecl)
+    (hnd : (els.map (·.sp)).Nodup) (nr : Nat) (dr : Rat) (out : List Tok) :
+    streamSem I (tabeam_pair_potentials (els.map toEam) (pairs.map toPot) (nr : Int) dr out) =
+      streamSem I out ++ (tabeamPairs els pairs nr dr).flatMap (tblockSem I) := by
+  unfold tabeam_pair_potentials
+  simp only []
+  rw [TabeamWriter.pairs_loop3_eq, TabeamWriter.sorted_pairs_eq els hnd, List.nil_append,
+    TabeamWriter.pairs_loop4_sem I hI]
+  rfl
+
+open Atsim.Gen.Logic Atsim.TokSem in
+/-- **code tie**: the part common to both variants (`_writeTABEAM_exceptDensity`): title, the count it is handed, the `pair` blocks, then one `embe` block per element -/
+theorem C05_code_except_density (I : String → Nat → Rat → Rat) (hI : ZeroFn I) (els : List El) (pairs : List PairDecl)
+    (hnd : (els.map (·.sp)).Nodup) (nrho nr : Nat) (drho dr : Rat) (title : String) (numpots : Rat) (out : List Tok) :
+    streamSem I (tabeam_except_density (nrho : Int) drho (nr : Int) dr (els.map toEam) (pairs.map toPot) title numpots out) =
+      streamSem I out ++ [("%s%s\n", [(some title, 0), (some titlePad, 0)]), ("%d\n", [(none, numpots)])] ++
+        (tabeamPairs els pairs nr dr ++ els.map fun e => tblock "embe" [e.sp] e.embed nrho drho).flatMap (tblockSem I) := by
+  unfold tabeam_except_density
+  simp only []
+  rw [TabeamWriter.except_density_loop_sem I hI, C05_code_pair_potentials I hI els pairs hnd, TabeamWriter.streamSem_append]
+  unfold tabeam_title
+  rw [TabeamWriter.streamSem_append, TabeamWriter.titlePad_eq]
+  simp [streamSem, tokSem, ovEval, tokSuffix, List.append_assoc]
+
+open Atsim.Gen.Logic Atsim.TokSem in
+/-- **code tie**: `writeTABEAM` writes the model's file -/
+theorem C05_code_write (I : String → Nat → Rat → Rat) (hI : ZeroFn I) (els : List El) (pairs : List PairDecl)
+    (hnd : (els.map (·.sp)).Nodup) (nrho nr : Nat) (drho dr : Rat) (title : String) (out : List Tok) :
+    streamSem I (tabeam_write (nrho : Int) drho (nr : Int) dr (els.map toEam) (pairs.map toPot) out title) =
+      streamSem I out ++ tabeamSem I title (tabeam false nrho drho nr dr els pairs) := by
+  unfold tabeam_write
+  simp only []
+  rw [TabeamWriter.write_loop_sem I hI, C05_code_except_density I hI els pairs hnd]
+  have h1 : 2 ∣ els.length * (els.length + 5) := by
+    rcases Nat.even_or_odd els.length with ⟨k, hk⟩ | ⟨k, hk⟩
+    · exact ⟨k * (els.length + 5), by rw [hk]; ring⟩
+    · exact ⟨els.length * (k + 3), by rw [hk]; ring⟩
+  have hn : (((els.length * (els.length + 5) / 2 : Nat) : Nat) : Rat) = ((els.length : Rat) * ((els.length : Rat) + 5)) / 2 := by
+    rw [Nat.cast_div h1 (by norm_num)]
+    push_cast
+    rfl
+  simp only [tabeamSem, tabeam, Bool.false_eq_true, if_false, hn, List.length_map, Int.cast_natCast, List.flatMap_append,
+    List.append_assoc]
+  simp [streamSem]
+
+
 end Atsim.C05
